@@ -75,6 +75,21 @@ def tables(draw):
     vis = _axis(draw, nv, vmax, min(fv, 0.9)) if nv > 1 else [vmax]
     if nv > 1 and vis[0] == 0.0:
         vis[0] = vis[1] / 2
+    ints = draw(st.integers(0, 9))
+    if ints < 3:
+        # breakpoints written as Python ints (io only / vi only / both): 1, 2, 5 A is as
+        # good a way to write an axis as 1.0, 2.0, 5.0
+        if ints in (0, 2):
+            ios = sorted(draw(st.lists(st.integers(1, 40), min_size=ni, max_size=ni,
+                                       unique=True)))
+            if ni > 1 and draw(st.integers(0, 2)) == 0:
+                ios[0] = 0
+            imax = float(ios[-1])
+        if ints in (1, 2):
+            vis = sorted(draw(st.lists(st.integers(1, 48), min_size=nv, max_size=nv,
+                                       unique=True)))
+            vmax = float(vis[-1])
+        big = max(vmax, imax)
     ok = all(b - a >= 1.0e-4 * big for a, b in zip(ios, ios[1:])) and all(
         b - a >= 1.0e-4 * big for a, b in zip(vis, vis[1:]))
     const = draw(st.integers(0, 7)) == 0
@@ -95,7 +110,7 @@ def tables(draw):
     if neg and zkey == "vdrop":
         rows = [[-v for v in r] for r in rows]
     fr = draw(st.lists(st.floats(0.02, 0.98), min_size=24, max_size=24))
-    return {"kind": kind, "par": par, "zkey": zkey, "ok": ok,
+    return {"kind": kind, "par": par, "zkey": zkey, "ok": ok, "int_axes": ints < 3,
             "table": {"vi": vis, "io": ios, zkey: rows}, "fr": fr, "const": const}
 
 
@@ -192,6 +207,8 @@ def body_direct(case, stats):
     stats.cls("kind:{}.{}".format(case["kind"], case["par"]))
     nv, ni = len(tab["vi"]), len(tab["io"])
     stats.cls("2d" if nv > 1 else "1d")
+    if case.get("int_axes"):
+        stats.cls("integer_axis")
     if nv >= 2 and ni >= 3 and {"interior", "line", "outside-corner", "outside-edge"} <= seen:
         stats.nontriv(jhash(tab), sample={"kind": case["kind"], "par": case["par"],
                                           "table": tab})
